@@ -1025,6 +1025,49 @@ func checkC20Restore(p *Prog, r *Report, ru *Rule) {
 			}
 		})
 	}
+	/* What is restored is the mode the terminal was found in: the place the
+	cleanup reads the saved state from is written by New alone. */
+	var savedField *types.Var
+	var savedCell ssa.Value
+	for _, f := range withAnons(onew) {
+		eachInstr(f, func(i ssa.Instruction) {
+			c := callCommon(i)
+			if nil == c || "github.com/magisterquis/goxterm.Restore" != calleeName(c) || 2 != len(c.Args) {
+				return
+			}
+			if fv, _ := loadedField(c.Args[1]); nil != fv {
+				savedField = fv
+			} else if u, ok := c.Args[1].(*ssa.UnOp); ok && token.MUL == u.Op {
+				savedCell = resolveFree(u.X)
+			}
+		})
+	}
+	if nil != savedField || nil != savedCell {
+		var later ssa.Instruction
+		for _, f := range p.Funcs() {
+			if f == onew {
+				continue
+			}
+			eachInstr(f, func(i ssa.Instruction) {
+				st, ok := i.(*ssa.Store)
+				if !ok || nil != later || isNilConst(st.Val) {
+					return
+				}
+				if nil != savedField {
+					if fv, _ := fieldAddrOf(st.Addr); fv == savedField {
+						later = i
+					}
+				} else if resolveFree(st.Addr) == savedCell {
+					later = i
+				}
+			})
+		}
+		if nil != later {
+			ru.Bad(fnName(onew)+":saved-state-taken-once", posOf(later), "the terminal state the cleanup restores is overwritten outside opshell.New ("+fnName(later.Parent())+"): what is restored is no longer the mode the terminal was found in")
+		} else {
+			ru.OK(fnName(onew)+":saved-state-taken-once", posOf(makeRaw), "the saved terminal state is written by opshell.New only")
+		}
+	}
 	if okRestore {
 		ru.OK(fnName(onew)+":restore-state", posOf(makeRaw), "cleanup restores the state MakeRaw returned, on the same descriptor")
 	} else {
